@@ -24,10 +24,10 @@ type metaItem struct {
 }
 
 type factoryReg struct {
-	Name  string
-	Kind  string // Object | Function | EnumElement | ObjectBytes | FunctionBytes
-	Type  *types.Named
-	Pos   string
+	Name string
+	Kind string // Object | Function | EnumElement | ObjectBytes | FunctionBytes
+	Type *types.Named
+	Pos  string
 }
 
 func litFields(info *types.Info, cl *ast.CompositeLit) map[string]constant.Value {
